@@ -324,6 +324,40 @@ def c06_checks(c, delays3, stim, n, rng, quick=True):
                     break
     except Exception as e:  # noqa
         out.append(('exception:dataset', repr(e)))
+    # mode 2 (the default): seed and simctl_int[0] pick a dataset per evaluated gate.  Whatever is picked, the result of a lane may
+    # depend only on its stimulus, its own simctl_int[0] and the seed -- not on its position, the batch size or the code path --
+    # and with identical datasets it is the result of that dataset alone.
+    try:
+        lane_seeds = [rng.randrange(4) for _ in range(n)]
+        pseed = rng.randrange(1, 50)
+
+        def ctl2(ls):
+            ctl = np.zeros((2, len(ls)), dtype=np.int32)
+            ctl[1] = 2
+            ctl[0] = ls
+            return ctl
+        r0 = WD.run(c, delays3, stim, n, WD.OPT_SETS[0], 16, simctl=ctl2(lane_seeds), prop_kw={'seed': pseed})
+        g0 = WD.summary(r0, rows)
+        r1 = WD.run(c, delays3, stim, n, WD.OPT_SETS[0], 16, simctl=ctl2(lane_seeds), prop_kw={'seed': pseed}, cuda=True)
+        if not np.array_equal(g0, WD.summary(r1, rows)):
+            out.append(('dataset:random:cuda', 'random dataset selection differs between the CPU and the GPU-kernel code path'))
+        perm = list(range(n))
+        rng.shuffle(perm)
+        ls_p = [0] * n
+        for j, pj in enumerate(perm):
+            ls_p[pj] = lane_seeds[j]
+        r2 = WD.run(c, delays3, stim, n, WD.OPT_SETS[0], 16, simctl=ctl2(ls_p), prop_kw={'seed': pseed}, lanes=perm)
+        if not np.array_equal(g0, WD.summary(r2, rows)[:, :, perm]):
+            out.append(('dataset:random:lane-position', f'with random dataset selection the result of a lane depends on its position (permutation {perm})'))
+        r3 = WD.run(c, delays3, stim, n + 3, WD.OPT_SETS[0], 16, simctl=ctl2(lane_seeds + [0, 0, 0]), prop_kw={'seed': pseed})
+        if not np.array_equal(g0, WD.summary(r3, rows)[:, :, :n]):
+            out.append(('dataset:random:allocated', 'with random dataset selection results change when more parallel simulations are allocated'))
+        same3 = np.repeat(delays3[1:2], 3, axis=0)
+        r4 = WD.run(c, same3, stim, n, WD.OPT_SETS[0], 16, simctl=ctl2(lane_seeds), prop_kw={'seed': pseed})
+        if not np.array_equal(WD.summary(r4, rows), alone[1]):
+            out.append(('dataset:random:identical-datasets', 'random selection among three identical datasets differs from simulating with that dataset alone'))
+    except Exception as e:  # noqa
+        out.append(('exception:dataset-random', repr(e)))
     # state transfer on both code paths
     try:
         sa = WD.run(c, d0, stim, n, WD.OPT_SETS[0], 16)
